@@ -25,30 +25,40 @@ def reset_server():
     reset_internal_bus()
 
 
-async def run_real_async(ops, handlers, n_cons):
+async def run_real_async(ops, handlers, n_cons, short_lived=False):
+    """short_lived: every produce goes through a fresh producer object that is dropped afterwards and a
+    consumer object only exists from its first subscription on (as when participants come and go) - the
+    message store must not depend on who happens to hold a producer or consumer"""
     from tickit.core.state_interfaces.internal import InternalStateConsumer, InternalStateProducer
     reset_server()
     recv = [[] for _ in range(n_cons)]
     produced = {}
-    prod = InternalStateProducer()
+    prod = None if short_lived else InternalStateProducer()
     script = {(k, v): pubs for k, v, pubs in handlers}
-    current_topic = []
+
+    async def produce(T, v):
+        if short_lived:
+            await InternalStateProducer().produce(T, (T, v))   # dropped at once (reference counting)
+        else:
+            await prod.produce(T, (T, v))
 
     def mk(k):
         async def cb(value):
             recv[k].append(value)
             for T, v2 in script.get((k, value[1]), []):
                 produced.setdefault(T, []).append(v2)
-                await prod.produce(T, (T, v2))
+                await produce(T, v2)
         return cb
 
-    cons = [InternalStateConsumer(mk(k)) for k in range(n_cons)]
+    cons = {} if short_lived else {k: InternalStateConsumer(mk(k)) for k in range(n_cons)}
     for op in ops:
         if op["o"] == "sub":
+            if op["k"] not in cons:
+                cons[op["k"]] = InternalStateConsumer(mk(op["k"]))
             await cons[op["k"]].subscribe(list(op["topics"]))
         else:
             produced.setdefault(op["T"], []).append(op["v"])
-            await prod.produce(op["T"], (op["T"], op["v"]))
+            await produce(op["T"], op["v"])
     reset_server()
     return recv, produced
 
@@ -176,10 +186,11 @@ def run(tier, seed, drv):
     res.exhaustive = True
     loop = asyncio.new_event_loop()
     replies = drv.eval([to_request(o, h, n) for o, h, r, n in cases])
-    for (ops, handlers, rank, n_cons), rep in zip(cases, replies):
+    for ci, ((ops, handlers, rank, n_cons), rep) in enumerate(zip(cases, replies)):
         ok = within_hypotheses(ops, handlers, rank)
+        short = ci % 2 == 1    # every other history with producers / consumers that come and go
         try:
-            recv, produced = loop.run_until_complete(run_real_async(ops, handlers, n_cons))
+            recv, produced = loop.run_until_complete(run_real_async(ops, handlers, n_cons, short_lived=short))
             err = None
         except Exception as e:  # e.g. set changed size during iteration
             recv, produced, err = None, None, f"{type(e).__name__}:{e}"
@@ -187,7 +198,8 @@ def run(tier, seed, drv):
                  sample={"ops": ops, "handlers": handlers, "model_recv": rep.get("recv")})
         res.count("within-hypotheses" if ok else "outside-hypotheses")
         res.count("reentrant" if handlers else "plain")
-        case = {"ops": ops, "handlers": handlers, "n_cons": n_cons, "rank": rank}
+        case = {"ops": ops, "handlers": handlers, "n_cons": n_cons, "rank": rank, "short_lived": short}
+        res.count("short-lived-objects" if short else "long-lived-objects")
         if err is not None:
             if ok:
                 res.violate(V("bus-raised", err, site="InternalStateServer"), case)
@@ -239,7 +251,7 @@ def replay(payload, drv):
         ts = [(n, input_topic(n), output_topic(n)) for n in c["names"]]
         return {"topics": ts, "violations": [V("topic-collision", str(ts))] if len({t for _, a, b in ts for t in (a, b)}) < 2 * len(ts) else []}
     loop = asyncio.new_event_loop()
-    recv, produced = loop.run_until_complete(run_real_async(c["ops"], c["handlers"], c["n_cons"]))
+    recv, produced = loop.run_until_complete(run_real_async(c["ops"], c["handlers"], c["n_cons"], short_lived=c.get("short_lived", False)))
     loop.close()
     rep = drv.eval([to_request(c["ops"], c["handlers"], c["n_cons"])])[0]
     return {"impl": recv, "model": rep, "violations": monitor(c["ops"], recv, produced, c["n_cons"])}
